@@ -67,17 +67,28 @@ def oracleLineC20 (toks out : List String) : String :=
         else st
       | _ => st
     let (allowed, denied, bad) := evs.foldl step ([], false, none)
-    let known := isTemplate
+    -- the known finding on the trial-template routes, as recorded: ConfigMaps are listed before any review, a denied review
+    -- or a missing user header is answered 500 instead of 403/401, and the katib namespace's own templates are returned
+    -- unreviewed.  Anything else on these routes (objects of another unreviewed namespace in the response, data access
+    -- after a denied review, writes without review) is judged like on every other route.
+    let katibNs := "kubeflow"
+    let knownBad (b : String) : Bool := isTemplate && (b.startsWith "data-access-without-allowing-review ConfigMap/")
+    let listsOnly := evs.all (fun ev => match ev.splitOn ":" with
+      | ["data", verb, kind, ns] => kind == "Namespace" || allowed.contains ns || (kind == "ConfigMap" && (verb == "list" || (verb == "get" && ns == katibNs)))
+      | _ => true)
+    if isTemplate && respNs.any (fun n => !allowed.contains n && n != katibNs) then
+      "fail response-contains-objects-of-unauthorised-namespace" else
     match bad with
-    | some b => if known then "known C20-template-routes" else "fail " ++ b
+    | some b => if knownBad b && listsOnly then "known C20-template-routes" else "fail " ++ b
     | none =>
       let touched := evs.any (fun ev => match ev.splitOn ":" with | ["data", _, kind, _] => kind != "Namespace" | _ => false)
-      if hdr == "0" && status != 401 && status != 400 && (touched || !respNs.isEmpty) then
-        (if known then "known C20-template-routes" else "fail no-user-header-but-not-401")
+      if respNs.any (fun n => !allowed.contains n && !(isTemplate && n == katibNs)) then
+        "fail response-contains-objects-of-unauthorised-namespace"
+      else if respNs.any (fun n => !allowed.contains n) then "known C20-template-routes"
+      else if hdr == "0" && status != 401 && status != 400 && (touched || !respNs.isEmpty) then
+        (if isTemplate && status == 500 then "known C20-template-routes" else "fail no-user-header-but-not-401")
       else if denied && status != 403 then
-        (if known then "known C20-template-routes" else "fail denied-review-but-not-403")
-      else if respNs.any (fun n => !allowed.contains n) then
-        (if known then "known C20-template-routes" else "fail response-contains-objects-of-unauthorised-namespace")
+        (if isTemplate && status == 500 then "known C20-template-routes" else "fail denied-review-but-not-403")
       else "pass"
   | _ => "bad-op"
 
